@@ -23,7 +23,8 @@ inductive HV
   | bytes (b : Bytes)
   deriving Repr, DecidableEq, Inhabited
 
-/-- the environ: an insertion-ordered `dict` with `str` keys (keys pairwise distinct) -/
+/-- the environ a view wraps (`WSGIHeaderDict.__init__`: `self.environ = environ`, no copy): an insertion-ordered
+`dict` with `str` keys (keys pairwise distinct) -/
 abbrev Env := List (Str × HV)
 
 def Env.get? : Env → Str → Option HV
